@@ -400,13 +400,50 @@ void splinetable<Alloc>::write_fits(const std::string& filePath) const{
 		fitsfile* fits;
 		fits_cleanup(fitsfile* f):fits(f){}
 		~fits_cleanup(){
+			if(!fits)
+				return;
+			//writing failed part way: do not leave a partial file behind,
+			//which could later be mistaken for a complete one
 			int error=0;
-			fits_close_file(fits, &error);
-			fits_report_error(stderr, error);
+			fits_delete_file(fits, &error);
 		}
 	} cleanup(fits);
 	
 	write_fits_core(fits);
+	
+	//Find out how long the finished file must be
+	LONGLONG expectedSize=-1;
+	{
+		int nhdus=0, hdutype=0, addr_error=0;
+		LONGLONG headstart=0, datastart=0, dataend=0;
+		fits_get_num_hdus(fits, &nhdus, &addr_error);
+		fits_movabs_hdu(fits, nhdus, &hdutype, &addr_error);
+		fits_get_hduaddrll(fits, &headstart, &datastart, &dataend, &addr_error);
+		if (addr_error == 0)
+			expectedSize=dataend;
+	}
+	
+	//Close explicitly rather than in the guard: most I/O errors only surface
+	//when the buffered data is flushed, and they must reach the caller.
+	cleanup.fits=nullptr;
+	fits_close_file(fits, &error);
+	//cfitsio does not notice when the last flush of its output stream fails,
+	//so also make sure that everything has arrived in the file
+	if (error == 0 && expectedSize >= 0){
+		LONGLONG actualSize=-1;
+		FILE* check=fopen(filePath.c_str(),"rb");
+		if (check){
+			if (fseeko(check, 0, SEEK_END) == 0)
+				actualSize=ftello(check);
+			fclose(check);
+		}
+		if (actualSize < expectedSize)
+			error=WRITE_ERROR;
+	}
+	if (error != 0){
+		remove(filePath.c_str());
+		throw std::runtime_error("Failed to flush and close "+filePath+": Error "+std::to_string(error));
+	}
 }
 	
 template<typename Alloc>
@@ -423,19 +460,29 @@ std::pair<void*,size_t> splinetable<Alloc>::write_fits_mem() const{
 	
 	try{
 		fits_create_memfile(&fits, &buf, &memsize, FITS_blocksize, realloc, &error);
+		if (error != 0)
+			throw std::runtime_error("CFITSIO failed to create memory 'file'");
 		
 		struct fits_cleanup{
 			fitsfile* fits;
 			fits_cleanup(fitsfile* f):fits(f){}
 			~fits_cleanup(){
+				if(!fits)
+					return;
 				int error=0;
 				fits_close_file(fits, &error);
-				fits_report_error(stderr, error);
 			}
 		} cleanup(fits);
 		
 		write_fits_core(fits);
+		
+		//close explicitly so that a failure to flush is reported
+		cleanup.fits=nullptr;
+		fits_close_file(fits, &error);
+		if (error != 0)
+			throw std::runtime_error("Failed to flush and close memory 'file': Error "+std::to_string(error));
 	}catch(std::exception& ex){
+		free(buf);
 		throw std::runtime_error("Failed to write FITS memory 'file': \n"+std::string(ex.what()));
 	}
 	
